@@ -177,6 +177,46 @@ def main():
                 mm['fam'], mm['impl'], 'set' if mm['is_set'] else 'map', mm['sizes'], mm['kind'], mm['history'][-4:]), dict(mm, kind='cursor-' + mm['kind']))
     if plan and not ck.notes.get('cursor_ghosts_made'):
         common.machinery_failure('the sweeps before cursor steps evicted nothing')
+    # 5. set algebra on evicted operands: the operands (Set, TreeSet, Bucket, BTree of every kind combination) are stored
+    #    in the data manager and the cache is swept, so every call of union / intersection / difference / the operators /
+    #    in-place forms / isdisjoint / weightedUnion / multiunion starts on ghosts; results judged by SetAlgebra as in C10/C11
+    from harness.checks.c10 import run_setops
+    splan = []
+    for fam in (['OO', 'II', 'LF'] if quick else ['OO', 'II', 'LF', 'fs', 'QQ', 'IO', 'UU', 'OI']):
+        for impl in ('c', 'py'):
+            splan.append(dict(fam=fam, impl=impl, emb='mid', nkeys=3, ghost=True, pure=(impl == 'py'),
+                              seed=ck.seed * 100 + 300 + len(splan), maxpairs=(500 if impl == 'c' else 200) if quick else 8000))
+            if fam in ('II', 'LF'):
+                splan.append(dict(fam=fam, impl=impl, emb='mid', nkeys=3, ghost=True, weighted=True, pure=(impl == 'py'),
+                                  seed=ck.seed * 100 + 300 + len(splan), maxpairs=(300 if impl == 'c' else 120) if quick else 4000))
+    run_setops(ck, splan, 'C05')
+    mplan = []
+    for fam in (['II', 'LL', 'QQ'] if quick else embed.INT_KEY_FAMILIES):
+        for impl in ('c', 'py'):
+            mplan.append(dict(fam=fam, impl=impl, seed=ck.seed * 100 + 400 + len(mplan), totals=[1, 7, 60, 801], reps=2, ghost=True, nkeys=1200,
+                              pure=(impl == 'py')))
+    mres = jobs.run_jobs('harness.workers.multi_worker', mplan, pure=True)
+    mrecs, mown = [], []
+    for job, res, err in mres:
+        ident = dict(fam=job['fam'], impl=job['impl'])
+        if err:
+            ck.violation('multiunion worker died %s: %s' % (ident, err[-1500:]), dict(ident, kind='crash', err=err[-3000:]))
+            continue
+        for r in res['records']:
+            if not all(isinstance(x, int) for x in r['got'] + r['range']) or r['kind'].startswith('exc'):
+                ck.violation('%s %s: multiunion of evicted operands (%d elements) -> %s %s' % (ident['fam'], ident['impl'], r['total'], r['kind'], str(r['got'])[:100]),
+                             dict(ident, kind='multiunion-malformed', total=r['total']))
+                continue
+            mrecs.append(r)
+            mown.append(ident)
+    if mrecs:
+        bad, summ = judge.judge('JudgeMulti', mrecs, chunk=300)
+        ck.add_tlc(dict(generated=summ['generated'], distinct=summ['distinct'], wall_s=round(summ['wall_s'], 1)), 'JudgeMulti on %d results of multiunion on evicted operands' % len(mrecs))
+        ck.add_traces(len(mrecs))
+        for b in bad:
+            r, ident = mrecs[b], mown[b]
+            ck.violation('%s %s: multiunion of %d elements in %d evicted operands: result of %d keys is not the union' % (ident['fam'], ident['impl'], r['total'], len(r['ops']), len(r['got'])),
+                         dict(ident, kind='multiunion-rejected-ghost', total=r['total'], got_head=r['got'][:40]))
     ck.assumptions += ['stand-in data manager with a persistent.PickleCache (harness/minijar.py); sweeps are cache.minimize() and _p_deactivate()',
                        'pins are observed through _p_state (2 = sticky)']
     ck.finish(exhaustive=False)
